@@ -950,8 +950,34 @@ func run(c Case, dir string, res *lib.Result) (ret string) {
 	if c.Referrers || c.DigestTags {
 		return ""
 	}
-	return fmt.Sprintf("mkCase [%s] [%s] [%s] %s %d [%s]", strings.Join(refsT, "; "), strings.Join(tgt0T, "; "), strings.Join(trace, "; "),
+	main := fmt.Sprintf("XC (mkCase [%s] [%s] [%s] %s %d [%s])", strings.Join(refsT, "; "), strings.Join(tgt0T, "; "), strings.Join(trace, "; "),
 		lib.CoqBool(cerr == nil), idOf[root.Digest], strings.Join(blobsT, "; "))
+	// the head ladder of the root manifest (Model/C14_Head.v): registry source and target, no fault, digests reported by HEAD
+	if c.Kind == "copy" && (c.Pair == "regreg" || c.Pair == "samereg") && !c.NoHeadDig {
+		var obs []string
+		for _, rc := range recs {
+			switch {
+			case rc.Host == w.tgt.Name && rc.Method == "HEAD" && rc.Path == "/v2/"+w.tgtRepo+"/manifests/copy":
+				obs = append(obs, "0")
+			case rc.Host == "src.example" && rc.Method == "HEAD" && rc.Path == "/v2/"+w.srcRepo+"/manifests/v1":
+				obs = append(obs, "1")
+			case rc.Host == "src.example" && rc.Method == "GET" && rc.Path == "/v2/"+w.srcRepo+"/manifests/v1":
+				obs = append(obs, "2")
+			}
+		}
+		tgt, tl := "None", false
+		if w.tag0 != "" {
+			tgt = "(Some 9999)"
+			if w.tag0 == root.Digest {
+				tgt = fmt.Sprintf("(Some %d)", idOf[root.Digest])
+				tl = root.Kind == "index"
+			}
+		}
+		skipped := cerr == nil && len(recs) == len(obs)
+		main += "\x00" + fmt.Sprintf("XH %s None %d false %s %s %s %s [%s] %s", tgt, idOf[root.Digest], lib.CoqBool(c.Recursive), lib.CoqBool(c.Referrers),
+			lib.CoqBool(c.DigestTags), lib.CoqBool(tl), strings.Join(obs, "; "), lib.CoqBool(skipped))
+	}
+	return main
 }
 
 func genCase(r *lib.Rand, focus string) Case {
@@ -1028,7 +1054,7 @@ func Run(focus string) func(o lib.Opts) {
 			return
 		}
 		r := lib.NewRand(o.Seed ^ uint64(len(focus))*977 ^ uint64(focus[2]))
-		cw := lib.NewCaseWriter(o.Out, focus, "From Coq Require Import List.\nFrom Verif Require Import Model.C03_Copy Corr.C03.\nImport ListNotations.", "case", 300)
+		cw := lib.NewCaseWriter(o.Out, focus, "From Coq Require Import List.\nFrom Verif Require Import Model.C03_Copy Corr.C03.\nImport ListNotations.", "xcase", 300)
 		var all []Case
 		if focus == "C04" {
 			for _, g := range []int{3} {
@@ -1101,7 +1127,9 @@ func Run(focus string) func(o lib.Opts) {
 			seen.Add(string(kb))
 			term := run(c, dir, res)
 			if o.Mode != "search" && term != "" {
-				cw.Add(term, c)
+				for _, t := range strings.Split(term, "\x00") {
+					cw.Add(t, c)
+				}
 			}
 			res.Sample(c, 3)
 		}
